@@ -31,8 +31,34 @@ def run(ctx):
         text, exp = g.history()
         cid = 'm%d' % i
         hist.append({'id': cid, 'text': text, 'expect_tr': exp, 'line': 'run %s %s %s %s' % (cid, hexf(text), hexf('tr'), hexf('20000'))})
+    # 3. equality of hash maps themselves (not modelled: decided by the oracle alone)
+    mg = heapgen.MapEqGen(ctx.rng.fork('mapeq'))
+    mapeq = []
+    for i in range(400 if quick else 6000):
+        text, equal = mg.case()
+        cid = 'q%d' % i
+        mapeq.append({'id': cid, 'text': text, 'equal': equal, 'line': 'eq %s %s' % (cid, hexf(text))})
     cases = pair_cases + hist
     impl, model = vc.run_cases(ctx, cases, timeout_ms=8000)
+    mimpl, _ = ctx.run_pair([c['line'] for c in mapeq], timeout_ms=8000, model=False)
+    n_mapeq_bad = 0
+    for c in mapeq:
+        got = mimpl.get(c['id'])
+        m = re.match(r'ab=(\w+) ba=(\w+) ci=(\w+) hashEq=(\w+)$', got or '')
+        bad = None
+        if not m:
+            bad = {'expected': 'an observation', 'implementation': got}
+        else:
+            ab, ba, ci, he = [x == 'true' for x in m.groups()]
+            if ab != c['equal'] or ba != c['equal']:
+                bad = {'expected_isEqualTo_both_ways': c['equal'], 'implementation': {'a isEqualTo b': ab, 'b isEqualTo a': ba}}
+            elif c['equal'] and not he:
+                bad = {'expected': 'hash maps that compare equal hash equally', 'implementation': 'hash differs'}
+        if bad:
+            n_mapeq_bad += 1
+            if n_mapeq_bad <= 3:
+                rep.violation('oracle', {'property': 'C07', 'kind': 'hashmap-equality', 'seed': ctx.seed, 'case': c['id'], 'program': c['text'],
+                                         'difference': bad, 'line': c['line']})
     n_or = n_mm = 0
     samples = []
     eqtab = {}
@@ -101,7 +127,7 @@ def run(ctx):
                                                  'history': c['text'], 'implementation': (got or '')[:2000], 'model': (model.get(c['id']) or '')[:2000],
                                                  'line': c['line']})
     cov = {'evaluations': len(cases), 'distinct_nontrivial': len(pair_cases) + len(set(c['text'] for c in hist)),
-           'rule': 'all ordered pairs (and, from the pair table, all triples) of a %d-value collision alphabet (0/-0, strings differing in case, arrays/code containing them, code differing only in spacing/parentheses): isEqualTo both ways, the case-insensitive comparison behind ==, value::hash() equality; hash map histories over two maps with keys from the alphabet (set, get, deleteAt, in, count, keys, createHashMapFromArray, + copy, array keys mutated after insertion) against a Python dictionary keyed by equivalence class; the Lean model (equality functions, association-list map) must agree' % len(alpha),
+           'rule': 'all ordered pairs (and, from the pair table, all triples) of a %d-value collision alphabet (0/-0, strings differing in case, arrays/code containing them, code differing only in spacing/parentheses): isEqualTo both ways, the case-insensitive comparison behind ==, value::hash() equality; hash map histories over two maps with keys from the alphabet (set, get, deleteAt, in, count, keys, createHashMapFromArray, + copy, array keys mutated after insertion) against a Python dictionary keyed by equivalence class; the Lean model (equality functions, association-list map) must agree; plus pairs of hash maps built by different insertion histories (same, reordered, subset, superset, one value changed, keys respelled, empty): isEqualTo both ways = equality of the denoted finite maps, equal maps hash equally (oracle only, map equality is not in the Lean model)' % len(alpha),
            'samples': samples, 'oracle_failures': n_or, 'model_mismatches': n_mm, 'pairs': len(pair_cases), 'triples_checked': n_trip,
-           'exhaustive': True, 'operation_counts': g.stats}
+           'exhaustive': True, 'operation_counts': g.stats, 'hashmap_equality_cases': len(mapeq), 'hashmap_equality_failures': n_mapeq_bad, 'hashmap_equality_kinds': mg.stats}
     return rep.finish(cov, ['NaN and nil are excluded as the property states', 'iteration order of a hash map (keys, str) is unspecified and never observed'])
